@@ -987,19 +987,45 @@ func (fr *Frame) siteAsserts(st *State, c *ssa.CallCommon, kind string) {
 		if ss.Kind != "call" || ss.Callee != name || (ss.Ordinal != 0 && ss.Ordinal != ord) {
 			continue
 		}
+		if ss.ArgName != "" {
+			ok := false
+			if len(c.Args) > 0 {
+				for _, n := range fr.sourceNames(st, c.Args[0]) {
+					if n == ss.ArgName {
+						ok = true
+					}
+				}
+			}
+			if !ok {
+				continue
+			}
+		}
 		ss.matched++
 		cx := fr.newCtx(st, fr.curRec, true)
 		cx.binds = map[string]Val{}
 		for k, v := range fr.params {
 			cx.binds[k] = v
 		}
+		// arguments are numbered as the callee declares its parameters (the receiver is `recv`); arg_<name> also works
 		args := fr.argVals(st, c)
-		off := 0
+		var sig *types.Signature
 		if c.IsInvoke() {
 			cx.binds["recv"] = fr.val(st, c.Value)
+			sig, _ = c.Method.Type().(*types.Signature)
+		} else if f := c.StaticCallee(); f != nil && f.Signature.Recv() != nil && len(args) > 0 {
+			cx.binds["recv"] = args[0]
+			args = args[1:]
+			sig = f.Signature
+		} else if f := c.StaticCallee(); f != nil {
+			sig = f.Signature
 		}
 		for i, a := range args {
-			cx.binds[fmt.Sprintf("arg%d", i+off)] = a
+			cx.binds[fmt.Sprintf("arg%d", i)] = a
+			if sig != nil && i < sig.Params().Len() {
+				if n := sig.Params().At(i).Name(); n != "" && n != "_" {
+					cx.binds["arg_"+n] = a
+				}
+			}
 		}
 		f, err := cx.boolExpr(ss.Clause.Expr)
 		if err != nil {
